@@ -151,6 +151,9 @@ static void adversarial(unsigned shard, unsigned nshards, bool thorough) {
     // neighbours of every power of two
     for (int k = 2; k < 64; ++k) for (int dlt = -40; dlt <= 40; ++dlt) { uint64_t n = (1ull << k) + uint64_t(int64_t(dlt)); feed(n, k <= 40 || (dlt & 7) == 0); }
     for (int dlt = 1; dlt <= 300; ++dlt) feed(0ull - uint64_t(dlt), (dlt % 16) == 0);
+    // k*2^t +- 1 (Proth / Riesel shapes): n-1 or n+1 has exactly t trailing zero bits, for EVERY t -- the decomposition n-+1 = 2^s*d of Miller-Rabin and strong Lucas
+    // is otherwise only exercised with small s (random n) or with d = 1 (powers of two)
+    for (int t = 1; t < 64; ++t) for (uint64_t k = 1; k < 256; k += 2) { u128 c = (u128)k << t; if ((c + 1) >> 64) break; feed(uint64_t(c) - 1, t <= 34 && k < 16); feed(uint64_t(c) + 1, t <= 34 && k < 16); }
     // deterministic LCG for family parameters (not a random choice of the *test*: fixed enumeration order)
     uint64_t s = 0x9e3779b97f4a7c15ull; auto lcg = [&] { s = s * 6364136223846793005ull + 1442695040888963407ull; return s >> 11; };
     const int rounds = thorough ? 3000000 : 300000;
@@ -175,7 +178,7 @@ static void adversarial(unsigned shard, unsigned nshards, bool thorough) {
     for (uint64_t n = 9; n < (1ull << 22); n += 2) { if (o_isprime(n)) continue; if (o_mr(n, 2) || o_strong_lucas(n)) feed(n, true); }
     Stats r; r.inst = "adversarial"; r.evals = st.evals; r.nontrivial = dn.n;
     char h[240]; snprintf(h, sizeof h, "\"primes\":%" PRIu64 ",\"strong_psp2\":%" PRIu64 ",\"strong_lucas_psp\":%" PRIu64 ",\"factored\":%" PRIu64 ",\"hard_semiprimes_factored\":%" PRIu64, st.primes, st.sprp2, st.slprp, st.factored, n_hard);
-    r.hist = h; r.samples.push_back("families: p(k(p-1)+1), p(k(p+1)-1), Carmichael, p^2, p(p+2), semiprimes near 2^16/2^31/2^32, 2^k+-40, 2^64-d"); report(r);
+    r.hist = h; r.samples.push_back("families: p(k(p-1)+1), p(k(p+1)-1), Carmichael, p^2, p(p+2), semiprimes near 2^16/2^31/2^32, 2^k+-40, 2^64-d, k*2^t+-1 for every t"); report(r);
 }
 
 // ---------------- (c) modular helpers via rapidcheck draws ----------------
